@@ -111,6 +111,16 @@ CLAIMED = {
          'joblib scheduling is outside the model (n_jobs 1 vs 2 compared as a supporting test); binary masks only (as documented); '
          'radii k/2 only; the per-searchlight RDM relies on the C01 model.',
          'DESIGN.md section 7, C19'),
+ 'C14': ('Coq proofs over R about the covariance estimator model (symmetry, PSD as a sum of squares, row-order independence, '
+         'convex-combination form of both shrinkage estimators, intensities in [0,1], validated inverse) + in-Coq correspondence',
+         'Theorems: the full estimate is R\'R/dof entry by entry, symmetric, and its quadratic form equals the sum over observations of '
+         '(row.x)^2 >= 0 for every x; it does not depend on the order of the observations; shrinkage_diag = lambda*diag(S)+(1-lambda)*S '
+         'and shrinkage_eye = (lambda*m*I+(1-lambda)*S)*n/dof entrywise, with lambda in [0,1]; convex combinations of PSD forms are '
+         'PSD, PD when shrinkage is active; a matrix accepted by the inverse validator is the inverse. Correspondence: '
+         'cov_from_residuals/_measurements/_unbalanced and prec_from_* on single inputs and lists (own dof per element), exact Q model.',
+         'b2 >= 0 for the Ledoit-Wolf intensity is a hypothesis of the range theorem; np.linalg.inv is modelled by validated exact '
+         'Gauss-Jordan; ill-conditioned inputs (zero variances, singular covariances for precisions) are not generated.',
+         'DESIGN.md section 7, C14'),
 }
 NA_REASON = 'check not built yet in this round (work in progress; see DESIGN.md section 7)'
 
